@@ -50,6 +50,8 @@ type Task struct {
 	gid    uint64
 	resume chan struct{}
 	state  int
+	// Leaked is the number of instrumented locks the task still held when its function returned.
+	Leaked int
 	// ParkedAt is the fake time at which the task last parked.
 	ParkedAt time.Duration
 	// StallEnd is the fake time at which the last simulator-imposed stall of
@@ -258,6 +260,24 @@ func (s *Sim) hookRelease(site string) {
 
 func (s *Sim) hookYield(point string, args []string) { s.yieldAt(curGID(), point, args) }
 
+// LeakedLocks describes instrumented locks that are still held although nobody is
+// inside an operation any more: by tasks whose function has returned, and by the
+// calling goroutine (the scenario, between two operations). "" if there are none.
+func (s *Sim) LeakedLocks() string {
+	s.mu.Lock()
+	defer s.mu.Unlock()
+	var out []string
+	for _, t := range s.tasks {
+		if t.state == stDone && t.Leaked > 0 {
+			out = append(out, fmt.Sprintf("task %s returned holding %d lock(s)", t.Name, t.Leaked))
+		}
+	}
+	if n := s.held[curGID()]; n > 0 {
+		out = append(out, fmt.Sprintf("the operation just made returned holding %d lock(s)", n))
+	}
+	return strings.Join(out, "; ")
+}
+
 // yieldAt parks the calling goroutine if the run's policy says so. A goroutine
 // that holds an instrumented lock is never parked (another task blocking on
 // that mutex would not be durably blocked and the bubble could not settle).
@@ -387,6 +407,7 @@ func (s *Sim) Spawn(name string, fn func()) *Task {
 			}
 			s.mu.Lock()
 			t.state = stDone
+			t.Leaked = s.held[t.gid] // instrumented locks taken and not given back when the task's function returned
 			s.mu.Unlock()
 		}()
 		s.park(t, "task.start", nil)
